@@ -459,7 +459,8 @@ fn token_tree_to_goal(token: Token) -> Result<Goal, String> {
                             Err(err) => { return Err(err); },
                         }
                     }
-                    else if child_type == TokenType::Group {
+                    else if child_type == TokenType::Group ||
+                            child_type == TokenType::And {
                         match token_tree_to_goal(child) {
                             Ok(g) => { operands.push(g); },
                             Err(err) => { return Err(err); },
